@@ -223,7 +223,10 @@ Inductive rop :=
 | Request (p f t : Z)              (* RequestRecovery *)
 | MAssign (cerr : bool) (pcs : list (Z * (Z * Z)))    (* assignPartitions: partition, committed, high (<0: query fails) *)
 | Deliver (m : msg)                (* KafkaConsumer.Receive *)
-| Crash.                           (* the instance is replaced by a new one that has read the compacted topic *)
+| Crash                            (* the instance is replaced by a new one that has read the compacted topic *)
+| RecCrash (p : Z).                (* the client delivers its next record of p and the instance stops while handling it:
+                                      if the record is to be emitted the handler is blocked on the send (back-pressure)
+                                      when the instance dies - see rec_crash *)
 
 Definition replay (log : list bcast) : tstate :=
   fold_left (fun t m => receive t (fst m) (snd m)) log [].
@@ -234,6 +237,28 @@ Definition massign_in (cfg : rcfg) (cerr : bool) (pcs : list (Z * (Z * Z))) : ar
          (if cerr then CErr else COk (map (fun x => (fst x, fst (snd x))) pcs))
          (map (fun x => if snd (snd x) <? 0 then WErr else WOk 0 (snd (snd x))) pcs)
          false.
+
+Definition crash_state (s : rstate) : rstate :=
+  {| owned := []; active := []; trk := replay (mlog s); cli := []; mlog := mlog s |}.
+
+(* recoverSingleEvent reaches the send (recoveryconsumer.go:311) exactly when the partition is active and
+   from < offset <= to *)
+Definition would_send (s : rstate) (p n : Z) : bool :=
+  match pget p (active s) with Some (f, to) => (f <? n) && (n <=? to) | None => false end.
+
+(* The owner dies while handling the next record of p.  If the record is one to emit, everything BEFORE the send has
+   happened - the window checks and the limiter wait (recoveryconsumer.go:272-304; line 307 only touches a local copy) -
+   the event is not emitted and what comes AFTER the send (the progress broadcast, :319-324) never happens.  Otherwise
+   the handler returns normally (nothing is sent on those paths) and the instance dies right after. *)
+Definition rec_crash (cfg : rcfg) (s : rstate) (p : Z) : rstate * rout :=
+  match pget p (cli s) with
+  | None => (crash_state s, out_nil)
+  | Some n =>
+      if would_send s p n then
+        (crash_state s, {| o_emits := []; o_calls := []; o_sent := []; o_err := false; o_acks := 0; o_waits := [0] |})
+      else
+        let '(s1, out) := rec_step cfg s p n in (crash_state s1, out)
+  end.
 
 Definition rstep (cfg : rcfg) (s : rstate) (op : rop) : rstate * rout :=
   match op with
@@ -272,8 +297,8 @@ Definition rstep (cfg : rcfg) (s : rstate) (op : rop) : rstate * rout :=
        {| o_emits := []; o_calls := []; o_sent := tout r; o_err := false; o_acks := 1; o_waits := [] |})
   | Deliver MUnknown =>
       (s, {| o_emits := []; o_calls := []; o_sent := []; o_err := true; o_acks := 0; o_waits := [] |})
-  | Crash =>
-      ({| owned := []; active := []; trk := replay (mlog s); cli := []; mlog := mlog s |}, out_nil)
+  | Crash => (crash_state s, out_nil)
+  | RecCrash p => rec_crash cfg s p
   end.
 
 (* the run: state and output after every op *)
